@@ -20,8 +20,11 @@ def gen_string(rng, pool):
         s = base
         while len(s.encode()) < rng.pick([13, 14, 15, 16, 18]):
             s += rng.pick(["a", "é", "日"])
-    elif kind < 7:
+    elif kind < 6:
         s = rng.pick(WORDS)
+    elif kind < 7:    # NUL bytes: trailing (the inline form pads with zeros), leading, interior
+        base = rng.pick(["", "a", "ab", "abcdefghijklm", "abcdefghijklmn", "abcdefghijklmno", "é"])
+        s = rng.pick([base + "\0" * rng.range(1, 3), "\0" + base, base[:1] + "\0" + base[1:], "\0" * rng.range(1, 16)])
     else:
         n = rng.range(0, 40)
         s = "".join(chr(rng.range(97, 102)) for _ in range(n))
@@ -81,6 +84,34 @@ def gen_history(rng, nops):
             a, b = rng.pick(hs), rng.pick(hs)
             lines += [f"rd {a}", f"rd {b}", f"cmp {a} {b}"]
     lines.append("stat")
+    return lines
+
+
+def cmp_family():
+    """Deterministic (seed-independent) comparison family: strings that differ only in how the
+    16-byte inline form pads them (trailing NUL bytes), at every length around the inline boundary,
+    plus prefix pairs, multi-byte endings and heap-sized strings; every ordered pair is compared
+    (Eq, Ord, Hash must tell the same story: ord = 0 exactly when the handles are equal, which is
+    exactly when the strings are equal)."""
+    strs = ["", "\0", "\0\0", "a", "a\0", "a\0\0", "\0a", "ab", "ab\0", "ab\0\0", "a\0b", "b",
+            "abcdefghijklmn", "abcdefghijklmn\0", "abcdefghijklmno", "abcdefghijklmn\0\0", "abcdefghijklmno\0",
+            "abcdefghijklmnop", "abcdefghijklmnop\0", "abcdefghijklm\u00e9", "abcdefghijkl\u00e9\0",
+            "\0" * 14, "\0" * 15, "\0" * 16, "\u00e9", "\u00e9\0", "\u65e5\u672c", "z" * 15, "z" * 16, "z" * 17]
+    lines = ["reset"]
+    for i, x in enumerate(strs):
+        lines += [f"as c{i} {hexs(x)}", f"rd c{i}"]
+    for i in range(len(strs)):
+        for j in range(len(strs)):
+            lines += [f"cmp c{i} c{j}"]
+    # the same after a GC round that keeps half of them (heap ids of survivors unchanged)
+    for i in range(0, len(strs), 2):
+        lines += [f"mk c{i}"]
+    lines += ["sw 10000"]
+    for i in range(0, len(strs), 2):
+        lines += [f"rd c{i}"]
+    for i in range(0, len(strs), 2):
+        for j in range(0, len(strs), 2):
+            lines += [f"rd c{i}", f"rd c{j}", f"cmp c{i} c{j}"]
     return lines
 
 
@@ -178,6 +209,9 @@ def oracle(lines, impl):
             x, y = t[1], t[2]
             if "HASH" in a:
                 bad.append((i, "equal handles hash differently"))
+            mo = a.split(" ")
+            if len(mo) >= 2 and mo[1].startswith("ord:") and (mo[1] == "ord:0") != (mo[0] == "eq:1"):
+                bad.append((i, f"handles {x},{y}: {mo[0]} but {mo[1]} (Ord and Eq disagree: ordered collections conflate or split them)"))
             if readable.get(x) and readable.get(y) and src.get(x) is not None and src.get(y) is not None:
                 eq = a.split(" ")[0] == "eq:1"
                 if eq != (src[x] == src[y]):
@@ -324,6 +358,9 @@ def run(ctx):
         lines = [l.rstrip("\n") for l in open(os.path.join(cdir, f)) if l.strip()]
         check_lines(ctx, lines, f"corpus/{f}")
         total_lines += len(lines)
+    fam = cmp_family()
+    check_lines(ctx, fam, "deterministic comparison family")
+    total_lines += len(fam)
     distinct, nontrivial, opcount, samples = set(), 0, {}, []
     batch = 200
     done = 0
